@@ -53,9 +53,10 @@ def main():
             ok = "test result: ok" in out and " 0 passed" not in out.split("test result: ok")[-1][:40]
             rec["ran"].append({"what": f"{label}: {cmd}", "passed": ok, "tail": out[-500:]})
             return ok, out
-        rc, out = sh(f"{env_prefix}cargo build --offline 2>&1 | tail -3", wt)
+        release = os.environ.get("DEMO_RELEASE") == "1"
+        rc, out = sh(f"{env_prefix}cargo build --offline {'--release' if release else ''} 2>&1 | tail -3", wt)
         runner = "python3" if demo.endswith(".py") else "bash"
-        cmd = f"{runner} {demo} ./target/debug/engine " + os.environ.get("DEMO_ARGS", "")
+        cmd = f"{runner} {demo} ./target/{'release' if release else 'debug'}/engine " + os.environ.get("DEMO_ARGS", "")
         rc, out = sh(cmd, wt, timeout=900)
         rec["ran"].append({"what": f"{label}: {cmd}", "exit": rc, "tail": out[-500:]})
         return rc == 0, out
